@@ -346,11 +346,14 @@ pub fn run(ctx: Arc<Ctx>) {
 	l31.insert((31, m31 - 300, m31 - 1), vec![1, 2, 3]);
 	l31.insert((31, m31, m31), vec![4, 5]);
 	fams.push(("level 31, two tiles in adjacent blocks at the far corner".into(), l31, all.clone()));
+	// three tiles spanning a whole level: level 12 (256 blocks in the box) in quick, level 14 (4096 blocks) in thorough
+	let lz = ctx.tier.pick(12u8, 14u8);
+	let lm = (1u32 << lz) - 1;
 	let mut l14 = TileMap::new();
-	l14.insert((14, 0, 16383), vec![1]);
-	l14.insert((14, 16383, 0), vec![2]);
-	l14.insert((14, 8000, 8000), vec![3]);
-	fams.push(("level 14, three tiles spanning the whole level (4096 blocks in the box)".into(), l14, mem.clone()));
+	l14.insert((lz, 0, lm), vec![1]);
+	l14.insert((lz, lm, 0), vec![2]);
+	l14.insert((lz, lm / 2 - 191, lm / 2 - 191), vec![3]);
+	fams.push((format!("level {lz}, three tiles spanning the whole level ({} blocks in the box)", ((lm as u64 + 1) / 256).pow(2)), l14, mem.clone()));
 	let mut l31b = TileMap::new();
 	l31b.insert((31, m31, m31), vec![4, 5]);
 	l31b.insert((0, 0, 0), vec![9]);
@@ -392,7 +395,11 @@ pub fn run(ctx: Arc<Ctx>) {
 		let rt = tokio::runtime::Builder::new_current_thread().build().unwrap();
 		let (f, cp) = default_pair(cont, true);
 		let case = Case { cont, tiles, format: f, comp: cp, label: format!("{} family '{name}'", cont.name()), replay: json!({"kind": "family", "index": i, "cont": cont}) };
+		let t0 = std::time::Instant::now();
 		roundtrip(ctxr, &rt, &wpath, &format!("f{j}"), &case);
+		if t0.elapsed().as_millis() > 2000 && std::env::var_os("VERIF_VERBOSE").is_some() {
+			eprintln!("slow family: {} {} {:.1}s", cont.name(), name, t0.elapsed().as_secs_f64());
+		}
 		ctxr.nontrivial(fnv_str(&format!("family{i}")));
 	});
 	ctx.outcome_n("named family x format cases", jobs.len() as u64);
@@ -401,6 +408,8 @@ pub fn run(ctx: Arc<Ctx>) {
 	pm_switch_sweep(&ctx, &wpath);
 	// 5. the target path already holds an earlier output
 	rewrite_existing(&ctx, &wpath);
+	ctx.extra("mbtiles_pool_tokens", json!(ct::POOL_TOKENS.load(std::sync::atomic::Ordering::Relaxed)));
+	ctx.extra("mbtiles_pool_wait_ms_summed_over_threads", json!(ct::POOL_WAIT_MS.load(std::sync::atomic::Ordering::Relaxed)));
 	ctx.exhaustive(true);
 	drop(work);
 }
